@@ -295,7 +295,7 @@ class Check:
             n += 1
         for f in fins:
             f.close()
-        wenv = dict(env or os.environ, VERIF_SEED=str(self.seed))
+        wenv = dict(env or os.environ, VERIF_SEED=str(self.seed), VERIF_WATCHDOG="12" if self.quick else "30")
         results, deaths = {}, {}
 
         def run_chunk(k):
@@ -421,7 +421,7 @@ class Check:
         for ch in chunks:          # remember which scenarios preceded each one in its worker process
             for k, (sid, _) in enumerate(ch):
                 self.prefix_of[(family, sid)] = (ch, k + 1)      # the chunk and how much of it: sliced only when a reproduction needs it
-        wenv = dict(env or os.environ, VERIF_SEED=str(self.seed))
+        wenv = dict(env or os.environ, VERIF_SEED=str(self.seed), VERIF_WATCHDOG="12" if self.quick else "30")
 
         def run_chunk(chunk):
             todo = list(chunk)
